@@ -19,6 +19,7 @@ func init() {
 		c.snapshotNoEscape()
 		c.poolReleasedLast()
 		c.configStableAfterStart()
+		c.claimedFlagReleased()
 		c.Floor("atomic64-aligned", atomic64Aligned(c, nil), 5, "fields operated on with 64-bit atomics")
 	}
 }
